@@ -32,8 +32,8 @@ Fraction = fractions.Fraction
 TIERS = {
     'quick': dict(shapes=[2310, 2311, 2312, 1411], sample_mod=64, nm_mod=8, witness=[2312],
                   max_cases=640),
-    'thorough': dict(shapes=[13310, 3311, 3320, 3312, 2410, 2411, 2421, 2510, 1532], sample_mod=61, nm_mod=5,
-                     witness=[3311], max_cases=12000),
+    'thorough': dict(shapes=[13310, 3311, 3320, 3312, 2410, 2411, 2421, 2510, 1532], sample_mod=192, nm_mod=60,
+                     witness=[3311], max_cases=4500),
 }
 
 DESIGN_INVARIANTS = ['TypeOK', 'AggregateIsTotals', 'FitIsOLS', 'SelectedAreAnalysed', 'ImplRefinesClosedForm',
